@@ -54,8 +54,9 @@ CFG = {
                 rule="for v := range g / for v = range g over library generators inside generator bodies with break/continue/return and nested ranges; "
                      "reference rendering is the pull loop it := g; it.MoveNext(); v (:)= it.Current()"),
     "C11": dict(feats={"postyield", "vars", "closures", "range", "yieldfrom", "consumer"}, findings=["F1", "F2", "F3", "F4", "F9"], corpus=["control", "accept"],
-                judge=True,
-                rule="programs of the whole supported grammar; verdict = the compiler does not panic and the generated package builds (go build) "
+                judge=True, imports=["dot", "default+seqrenamed", "renamed", "dot+seq", "default", "renamed+seq"],
+                rule="programs of the whole supported grammar; the files of each package import the API in six different ways (dot, default name, "
+                     "renamed, each with and without an already present import of seq under its own or another name); verdict = the compiler does not panic and the generated package builds (go build) "
                      "— behaviour is compared too"),
 }
 
@@ -66,6 +67,9 @@ def check(rep, tier, pid):
         return
     n = (240 if tier == "quick" else 2500)
     listed = [e["id"] for e in C.known_findings(pid) if e["kind"] == "finding"]
+    import cdiff
+    cdiff.IMPORT_STYLES = cfg.get("imports")
+    rep.coverage["import_styles"] = cfg.get("imports") or ["dot"]
     R, progs = ccheck.run(rep, pid, cfg["feats"], n, [f for f in cfg["findings"] if f in listed], cfg["rule"], gover=cfg.get("gover", "1.21"),
                           corpus=cfg.get("corpus"), judge_compile=cfg.get("judge", False),
                           tapes=3 if tier == "quick" else 5)
